@@ -434,6 +434,16 @@ def case_strategy(draw):
     return tsrc, form, cond
 
 
+def _non_runtime_protocol(tsrc):
+    """A protocol class without @runtime_checkable (HasX, SupportsClose, NodeP, EdgeP ...): isinstance() against it
+    raises, which no checked program can reach."""
+    try:
+        obj = eval(tsrc, universe.NS)
+    except Exception:
+        return False
+    return isinstance(obj, type) and getattr(obj, "_is_protocol", False) and not getattr(obj, "_is_runtime_protocol", False)
+
+
 def shards(tier, seed):
     n = 16
     out = [{"mode": "program", "index": i, "modules": 30 if tier == "quick" else 600} for i in range(n)]
@@ -463,7 +473,7 @@ def run_shard(spec):
         # non-runtime protocols are left out: the API raises on isinstance() against them,
         # which no checked program can reach (the visitor never builds such a constraint)
         types = [t for t in universe.types_depth1() + list(gen_prog.PARAM_TYPES)
-                 if t not in ("HasX", "SupportsClose")][spec["index"]::spec["of"]]
+                 if not _non_runtime_protocol(t)][spec["index"]::spec["of"]]
         for tsrc in types:
             if not universe.valid_type_src(tsrc):
                 continue
